@@ -59,7 +59,7 @@ def worker_init():
 # ---------------------------------------------------------------- case generation
 
 def late_module(name, version):
-    s = name
+    s = name.rpartition('.')[2]
     return {'name': name, 'version': version, 'iface': {'classes': ['KL_' + s], 'funcs': [], 'insts': [], 'multis': []},
             'items': [['class', 'KL_' + s, [], ['cl_%s_v%d' % (s, version)], [['ml_' + s, []]]],
                       ['assign', 'xl_%s_v%d' % (s, version), str(version)]]}
@@ -72,6 +72,8 @@ def gen_edit(r, spec, state, allow_backward=True):
     dts = DTS_MS if allow_backward else [d for d in DTS_MS if d > 0]
     dt = r.choice(dts)
     late = [it[1] for m in mods for it in m['items'] if it[0] == 'tryimport' and not any(x_['name'] == it[1] for x_ in mods)]
+    late += [it[1] + '.' + it[2] for m in mods for it in m['items']
+             if it[0] == 'tryfrom' and not any(x_['name'] == it[1] + '.' + it[2] for x_ in mods)]
     if x < 0.12 and late:
         nm = r.choice(late)
         mod = late_module(nm, 1)
@@ -98,7 +100,7 @@ def gen_edit(r, spec, state, allow_backward=True):
         new = {'modules': mods[:idx] + [old] + mods[idx + 1:]}
         return {'op': 'revert', 'module': m['name'], 'newmod': old, 'dt_ms': dt}, new
     nm = G.mutate_module(r, spec, idx)
-    if m['name'].startswith('zqlate_'):
+    if G.short(m['name']).startswith(('zqlate_', 'zqlsub_')):
         nm = late_module(m['name'], m['version'] + 1)
     # version numbers only grow, also after a revert
     top = max([m['version']] + [h['version'] for h in state['history'].get(m['name'], [])])
@@ -110,7 +112,7 @@ def gen_edit(r, spec, state, allow_backward=True):
 
 def _reversion(r, spec, idx, version):
     m = dict(spec['modules'][idx], version=version - 1)
-    if m['name'].startswith('zqlate_'):
+    if G.short(m['name']).startswith(('zqlate_', 'zqlsub_')):
         return late_module(m['name'], version)
     tmp = {'modules': spec['modules'][:idx] + [m] + spec['modules'][idx + 1:]}
     return G.mutate_module(r, tmp, idx)
@@ -310,7 +312,7 @@ class History(object):
             for mod in op.get('newmods') or [op['newmod']]:
                 self.current[mod['name']] = mod
                 self.write(mod, op['dt_ms'])
-                if mod['name'].startswith('zqlate_'):
+                if G.short(mod['name']).startswith(('zqlate_', 'zqlsub_')):
                     self.probes['create_after_failed_import'] += 1
         name = op.get('module') or (op.get('newmod') or op['newmods'][-1])['name']
         if name not in self.loaded:
